@@ -92,18 +92,18 @@ Lemma step_arrive s s' : step LArrive s = Some s' ->
 Proof. cbn. destruct (future s) as [|c r]; [discriminate|]. intros H; inversion H. now exists c, r. Qed.
 
 (* ---- generic induction principle over runs ---- *)
-Lemma run_app tr1 tr2 s : run (tr1 ++ tr2) s = match run tr1 s with Some s1 => run tr2 s1 | None => None end.
+Lemma run_app tr1 tr2 s : runs (tr1 ++ tr2) s = match runs tr1 s with Some s1 => runs tr2 s1 | None => None end.
 Proof. revert s; induction tr1 as [|lb tr1 IH]; intros s; cbn; [reflexivity|]. destruct (step lb s); auto. Qed.
 
-Lemma run_snoc tr lb s s2 : run (tr ++ [lb]) s = Some s2 -> exists s1, run tr s = Some s1 /\ step lb s1 = Some s2.
+Lemma run_snoc tr lb s s2 : runs (tr ++ [lb]) s = Some s2 -> exists s1, runs tr s = Some s1 /\ step lb s1 = Some s2.
 Proof.
-  rewrite run_app. destruct (run tr s) as [s1|]; [|discriminate]. cbn.
+  rewrite run_app. destruct (runs tr s) as [s1|]; [|discriminate]. cbn.
   destruct (step lb s1) as [s'|] eqn:E; [|discriminate]. intros H; inversion H; subst. now exists s1.
 Qed.
 
 Lemma reach_ind (P : sys -> Prop) s0 :
   P s0 -> (forall s lb s', P s -> step lb s = Some s' -> P s') ->
-  forall tr s, run tr s0 = Some s -> P s.
+  forall tr s, runs tr s0 = Some s -> P s.
 Proof.
   intros H0 HS tr. induction tr as [|lb tr IH] using rev_ind; intros s Hr.
   - cbn in Hr. inversion Hr; subst; exact H0.
